@@ -112,6 +112,12 @@ def arrcov(regs, kind, lo, hi):
     return {"s": "arrcov", "regs": list(regs), "kind": kind, "lo": fr(lo), "hi": fr(hi)}
 
 
+def slicehist(r, scratch, ivs, icl, bins, closed, stat):
+    """StairsSlicer.hist: one histogram per slice (compound: expands to clip + hist per interval)"""
+    return {"s": "slicehist", "r": r, "scratch": list(scratch), "ivs": [(fr(a), fr(b)) for a, b in ivs], "icl": icl,
+            "bins": [(fr(a), fr(b)) for a, b in bins], "closed": closed, "stat": stat}
+
+
 def expand(prog):
     """compound (collection-level) statements as the per-member statements they must equal"""
     out = []
@@ -125,6 +131,10 @@ def expand(prog):
         elif k == "arrtable":
             for r in s["regs"]:
                 out.append(query(r, "sample", xs=s["xs"]) if s["kind"] == "sample" else query(r, "limit", side=s["side"], xs=s["xs"]))
+        elif k == "slicehist":
+            for sr, (a, b) in zip(s["scratch"], s["ivs"]):
+                out.append(clip(sr, s["r"], a, b))
+                out.append(query(sr, "hist", bins=s["bins"], closed=s["closed"], stat=s["stat"]))
         elif k == "arrcov":
             n = len(s["regs"])
             for i in range(n):
